@@ -210,7 +210,13 @@ def handle (req : Json) : Except String Json := do
           | .ok l => [("out_given", ids l)]
           | .error e => [("err_given", Json.str (errName e))])
       | .error _ => pure []
-    pure (obj (base ++ given ++ [("state", ofNat st), ("seedstate", ofNat s), ("steps", ofList stepJson own)]))
+    let givenOk ← match req.getObjVal? "steps" with
+      | .ok v => do
+        let steps ← (← arr v).mapM parseStep
+        pure [("runok_given", Json.bool (reservoirOk c steps items.length))]
+      | .error _ => pure []
+    pure (obj (base ++ given ++ givenOk ++ [("state", ofNat st), ("seedstate", ofNat s), ("steps", ofList stepJson own),
+      ("runok", Json.bool (reservoirOk c own items.length))]))
   | "sort" =>
     let keys ← (← arr (← field req "keys")).mapM parseVal
     pure (outIds (sortF (·.hasCtx) (·.ctx) keys items))
@@ -337,6 +343,50 @@ def handle (req : Json) : Except String Json := do
         pure (← opt nat need, D)
       | _ => throw "read [inner, need, consumed] expected")
     pure (obj [("reads", ofList outIds (cachedRun ns base none reads)), ("base", ids base)])
+  | "shufcall" =>
+    -- Environments(e_0 … e_{nenv-1}).shuffle(<call form>): the seeds (model function AND the interpreted program) and the members
+    let call ← field req "call"
+    let parseRow := fun (j : Json) => do (← arr j).mapM (fun (x : Json) => match x with
+      | .arr vs => do pure (SeedArg.seq (← vs.toList.mapM nat))
+      | v => do pure (SeedArg.num (← nat v)))
+    let c ← match call.getObjVal? "n", call.getObjVal? "int", call.getObjVal? "row", call.getObjVal? "args" with
+      | .ok k, _, _, _ => do pure (ShuffleCall.n (← nat k))
+      | _, .ok v, _, _ => do pure (ShuffleCall.kwInt (← nat v))
+      | _, _, .ok r, _ => do pure (ShuffleCall.kwRow (← parseRow r))
+      | _, _, _, .ok r => do pure (ShuffleCall.args (← parseRow r))
+      | _, _, _, _ => throw "call form expected"
+    let nenv ← nat (← field req "nenv")
+    let seeds := shuffleSeeds c
+    let ran := match runShuffle c 20 shuffleProgram none with
+      | some l => ofList ofNat l
+      | none => Json.null
+    let members := sortedMembers (fun j => seeds.getD j 0) nenv seeds.length
+    pure (obj [("seeds", ofList ofNat seeds), ("ran", ran),
+               ("members", ofList (fun (m : Nat × Nat) => Json.arr #[ofNat m.1, ofNat (seeds.getD m.2 0)]) members),
+               ("chunk_true", ofList Json.str (chunkFilters true)), ("chunk_false", ofList Json.str (chunkFilters false)),
+               ("chunk_ran_true", match runChunk true chunkProgram with | some l => ofList Json.str l | none => Json.null)])
+  | "cachemulti" =>
+    -- Environments(e_0, e_1, …).cache(): own Cache(nslice) per environment, downstream pipelines per environment;
+    -- a read = [env, inner|null, need|null or "eager"/"onFirst"/"never" (then the MODEL computes the pull), consumed|null]
+    let ns ← nat (← field req "nslice")
+    let envs ← (← arr (← field req "envs")).mapM (fun e => do (← arr e).mapM parseItem)
+    let envOf := fun (e : Nat) => envs.getD e []
+    let reads ← (← arr (← field req "reads")).mapM (fun p => do
+      match p with
+      | .arr #[e, inner, need, c] =>
+        let f ← match inner with
+          | Json.null => pure (fun (xs : List Item) => (Except.ok xs : Except Err (List Item)))
+          | j => parseInner j
+        let c ← opt nat c
+        let nd ← match need with
+          | Json.str "eager" => pure (pullNeed .eager c)
+          | Json.str "onFirst" => pure (pullNeed .onFirst c)
+          | Json.str "never" => pure (pullNeed .never c)
+          | j => opt nat j
+        pure (← nat e, nd, fun xs => consume c (f xs))
+      | _ => throw "read [env, inner, need, consumed] expected")
+    pure (obj [("reads", ofList outIds (multiCachedRun ns envOf (fun _ => none) reads)),
+               ("needs", ofList (fun (r : Nat × Option Nat × (List Item → Except Err (List Item))) => match r.2.1 with | some n => ofNat n | none => Json.null) reads)])
   | "cache" =>
     let ns ← nat (← field req "nslice")
     let reads ← (← arr (← field req "reads")).mapM (opt nat)
